@@ -59,3 +59,27 @@ Theorem C14_fanout_remove_resumes : forall (partials : list Z) (last : Z),
   remove_attempts (map (fun c => (c, true)) partials ++ [(last, false)]) = (sumZ partials + last, true).
 Proof. exact remove_resumes_after_timeout. Qed.
 Print Assumptions C14_fanout_remove_resumes.
+
+(* the statement-level retry of Cache.__init__ / reset (Cache._sql_retry; give-up test, pause and message regenerated
+   from core.py): for every behaviour of the statement (out) and every clock (clk; start = the reading before the
+   first attempt), what the call does is the result of the first attempt that is not OperationalError('database is
+   locked'), or that error once more than the time limit has passed, and every earlier attempt hit the lock within the
+   limit; and with a clock on which every pause lasts at least the generated pause the call ends within
+   limit / pause + 2 attempts (bounded wait). *)
+From DC Require Import Gen_Retry Retry RetryFacts.
+
+Theorem C14_sql_retry_sound : forall (out : nat -> attempt) (clk : nat -> Z) (start : Z) (fuel : nat),
+  match sql_retry out clk start fuel with
+  | Returned k => out k = AOk /\ waited out clk start k
+  | Reraised k => out k <> AOk /\ is_locked (out k) = false /\ waited out clk start k
+  | GaveUp k => is_locked (out k) = true /\ clk k - start > retry_limit_us /\ waited out clk start k
+  | OutOfFuel => waited out clk start fuel
+  end.
+Proof. exact sql_retry_sound. Qed.
+Print Assumptions C14_sql_retry_sound.
+
+Theorem C14_sql_retry_bounded_wait : forall (out : nat -> attempt) (clk : nat -> Z) (start : Z),
+  start <= clk 0%nat -> (forall i, clk i + retry_sleep_us <= clk (S i)) ->
+  forall fuel, retry_attempt_bound <= Z.of_nat fuel -> sql_retry out clk start fuel <> OutOfFuel.
+Proof. exact sql_retry_terminates. Qed.
+Print Assumptions C14_sql_retry_bounded_wait.
